@@ -224,8 +224,10 @@ class Fn:
         self.ret = None
         self.uses_mem = False
         self.uses_pd = False
+        self.resizes = False     # calls payloadData.resize: the memory IS the object's own (resizable) byte vector
         self.writes = False
         self.has_this = False
+        self.outs = []         # names of std::string_view& parameters (returned as extra results)
         self.body = None
         self.loc = ""
         self.deps = []
@@ -266,7 +268,14 @@ class Translator:
         if q.endswith("*"):
             return ("p", strip_cv(q[:-1]))
         if q.endswith("&"):
+            if self.is_sv(strip_cv(q[:-1])):
+                return ("svref",)
+            if q0.strip().startswith("const") and strip_cv(q[:-1]) in ("std::vector<uint8_t>", "std::vector<unsigned char>",
+                                                                          "std::vector<unsigned char, std::allocator<unsigned char>>"):
+                return ("vec",)      # a caller's byte vector passed by const reference: usable as an external buffer only
             raise Untranslatable("reference type " + q0)
+        if self.is_sv(q):
+            return ("sv",)
         if q == "bool":
             return ("b",)
         if q == "void":
@@ -279,6 +288,11 @@ class Translator:
         if alt and alt != q0:
             return self.ctype_s(alt)
         raise Untranslatable("type " + q0)
+
+    @staticmethod
+    def is_sv(q):
+        """std::string_view: a (pointer, length) pair"""
+        return q in ("std::string_view", "std::basic_string_view<char>", "std::basic_string_view<char, std::char_traits<char>>")
 
     def enum_lookup(self, q):
         if q in self.enum_underlying:
@@ -338,7 +352,7 @@ class Translator:
         try:
             f0 = FnTr(self, defnode).run()
             # second pass with the effect flags known from the first (return statements before the first write need them)
-            f = FnTr(self, defnode, preset=(f0.uses_mem, f0.writes, f0.uses_pd)).run()
+            f = FnTr(self, defnode, preset=(f0.uses_mem, f0.writes, f0.uses_pd, f0.resizes)).run()
         except Untranslatable as e:
             self.fns[key] = e
             self.failed[self.tu.qualname(defnode) + " " + defnode.get("type", {}).get("qualType", "")] = str(e)
@@ -413,8 +427,10 @@ class Translator:
             if f.uses_pd:
                 ps.append("(pd_ pdsize_ : Nat)")
             for nm, t in f.params:
-                ps.append("(%s : %s)" % (nm, "Bool" if t[0] == "b" else "Nat"))
-            rt = {"b": "Bool", "v": "Unit"}.get(f.ret[0], "Nat")
+                ps.append("(%s : %s)" % (nm, "Bool" if t[0] == "b" else ("Nat × Nat" if t[0] in ("sv", "svref") else ("Bytes" if t[0] == "ext" else "Nat"))))
+            rt = {"b": "Bool", "v": "Unit", "sv": "(Nat × Nat)"}.get(f.ret[0], "Nat")
+            for _o in f.outs:
+                rt = "(%s × (Nat × Nat))" % rt
             if f.writes:
                 rt = "Bytes" if f.ret[0] == "v" else "(Bytes × %s)" % rt
             out.append("/-- `%s` (%s) -/" % (f.qual, f.loc))
@@ -449,10 +465,15 @@ class FnTr:
         self.tu = T.tu
         self.node = node
         self.fn = Fn()
+        self.ext = {}       # decl id of an external buffer parameter -> lean name (Bytes)
         if preset:
-            self.fn.uses_mem, self.fn.writes, self.fn.uses_pd = preset
+            self.fn.uses_mem, self.fn.writes, self.fn.uses_pd, self.fn.resizes = preset
+            if self.fn.resizes:
+                self.fn.uses_pd = False
         self.cnt = 0
         self.break_k = []
+        self.sv_locals = set()
+        self.const_arrays = {}   # decl id of a local `char x[n] = {constants}` -> Lean byte list
         self.locals = {}    # decl id -> lean name
 
     def fresh(self, p="t"):
@@ -488,8 +509,18 @@ class FnTr:
             if c.get("kind") == "ParmVarDecl":
                 t = self.T.ctype(c.get("type"))
                 nm = self.vname(c.get("name") or self.fresh("anon"), "a_")
+                if t[0] == "vec" and not self.is_external_buffer(c["id"], TU.body_of(n)):
+                    raise Untranslatable("std::vector parameter that is not only copied from")
+                if t[0] in ("p", "sv", "vec") and self.is_external_buffer(c["id"], TU.body_of(n)):
+                    # a caller's buffer that is only ever COPIED FROM (memcpy source / handed on as such): a separate read-only byte list
+                    nm = self.vname(c.get("name"), "x_")
+                    self.ext[c["id"]] = nm
+                    f.params.append((nm, ("ext", t[0])))
+                    continue
                 self.locals[c["id"]] = nm
                 f.params.append((nm, t))
+                if t[0] == "svref":
+                    f.outs.append(nm)
         if f.ret is None:
             # return type of a template instantiation: take it from the return statement's cast; default to unsigned of the widest
             f.ret = self.T.ctype_s(re.sub(r"typename std::underlying_type<(.*)>::type", r"\1", rts))
@@ -497,6 +528,108 @@ class FnTr:
         code = self.block(body.get("inner", []), self.fall_off, 1)
         f.body = code
         return f
+
+    # ---------------------------------------------------------------- external buffers, memcpy, resize
+    def uses_of(self, n, did, parent_chain, out):
+        if not isinstance(n, dict):
+            return
+        if n.get("kind") == "DeclRefExpr" and n.get("referencedDecl", {}).get("id") == did:
+            out.append(list(parent_chain))
+        for c in n.get("inner", []):
+            self.uses_of(c, did, parent_chain + [n], out)
+
+    def is_external_buffer(self, did, body):
+        """every use of the parameter is (after casts / `.data()` / `.size()`) the source argument of memcpy, the size of a string_view,
+        or an argument handed to a callee parameter that is itself external"""
+        uses = []
+        self.uses_of(body, did, [], uses)
+        if not uses:
+            return False
+        any_src = False
+        for chain in uses:
+            # climb through casts, parens, `.data()` / `.size()` member calls and copy constructions
+            i = len(chain) - 1
+            via_size = False
+            while i >= 0 and (chain[i].get("kind") in ("ImplicitCastExpr", "ParenExpr", "CXXStaticCastExpr", "CXXReinterpretCastExpr", "CStyleCastExpr",
+                                                        "MemberExpr", "CXXConstructExpr", "MaterializeTemporaryExpr", "CXXBindTemporaryExpr")
+                              or (chain[i].get("kind") == "CXXMemberCallExpr" and len(chain[i].get("inner", [])) == 1)):
+                if chain[i].get("kind") == "MemberExpr" and chain[i].get("name") in ("size", "length"):
+                    via_size = True
+                i -= 1
+            if via_size:
+                continue
+            if i < 0:
+                return False
+            par = chain[i]
+            child = chain[i + 1] if i + 1 < len(chain) else None
+            if par.get("kind") == "CallExpr":
+                callee = self.strip_casts(par["inner"][0])
+                nm = callee.get("referencedDecl", {}).get("name")
+                idx = next((k for k, a in enumerate(par["inner"]) if a is child), None)
+                if nm == "memcpy" and idx == 2:
+                    any_src = True
+                    continue
+                if nm == "memcpy":
+                    return False
+                # handed on: the callee's parameter must be external too
+                try:
+                    d = self.T.definition(callee["referencedDecl"]["id"])
+                    f = self.T.translate_fn(d)
+                except (Untranslatable, KeyError):
+                    return False
+                ps = [p for p in f.params if p[0] != "this_"]
+                if idx is None or idx - 1 >= len(ps) or ps[idx - 1][1][0] != "ext":
+                    return False
+                any_src = True
+                continue
+            if par.get("kind") == "CXXMemberCallExpr":
+                me = par["inner"][0]
+                while me.get("kind") in ("ParenExpr", "ImplicitCastExpr"):
+                    me = me["inner"][0]
+                idx = next((k for k, a in enumerate(par["inner"]) if a is child), None)
+                try:
+                    d = self.T.definition(me["referencedMemberDecl"])
+                    f = self.T.translate_fn(d)
+                except (Untranslatable, KeyError):
+                    return False
+                ps = [p for p in f.params if p[0] != "this_"]
+                if idx is None or idx < 1 or idx - 1 >= len(ps) or ps[idx - 1][1][0] != "ext":
+                    return False
+                any_src = True
+                continue
+            return False
+        return any_src
+
+    def ext_bytes(self, n, B):
+        """Lean byte-list expression for a memcpy source, or None: an external buffer parameter, `&local`, a local constant array"""
+        k = n
+        while k.get("kind") in ("ImplicitCastExpr", "ParenExpr", "CXXStaticCastExpr", "CXXReinterpretCastExpr", "CStyleCastExpr") and k.get("castKind") != "ArrayToPointerDecay":
+            k = k["inner"][0]
+        if k.get("kind") == "DeclRefExpr" and k["referencedDecl"]["id"] in self.ext:
+            return self.ext[k["referencedDecl"]["id"]]
+        if k.get("kind") == "CXXMemberCallExpr":
+            me = k["inner"][0]
+            while me.get("kind") in ("ParenExpr", "ImplicitCastExpr"):
+                me = me["inner"][0]
+            if me.get("kind") == "MemberExpr" and me.get("name") == "data":
+                b = me["inner"][0]
+                while b.get("kind") in ("ParenExpr", "ImplicitCastExpr"):
+                    b = b["inner"][0]
+                if b.get("kind") == "DeclRefExpr" and b["referencedDecl"]["id"] in self.ext:
+                    return self.ext[b["referencedDecl"]["id"]]
+        if k.get("kind") == "UnaryOperator" and k.get("opcode") == "&":
+            t = k["inner"][0]
+            while t.get("kind") == "ParenExpr":
+                t = t["inner"][0]
+            if t.get("kind") == "DeclRefExpr" and t["referencedDecl"]["id"] in self.locals:
+                ct = self.ty(t)
+                if ct[0] == "i":
+                    return "(leEnc %d %s)" % (ct[1] // 8, self.locals[t["referencedDecl"]["id"]])
+        if k.get("kind") == "ImplicitCastExpr" and k.get("castKind") == "ArrayToPointerDecay":
+            t = k["inner"][0]
+            if t.get("kind") == "DeclRefExpr" and t["referencedDecl"]["id"] in self.const_arrays:
+                return self.const_arrays[t["referencedDecl"]["id"]]
+        return None
 
     def fall_off(self, ind):
         if self.fn.ret[0] == "v":
@@ -507,6 +640,8 @@ class FnTr:
         f = self.fn
         pad = "  " * ind
         if f.ret[0] == "v":
+            if f.outs:
+                raise Untranslatable("void function with string_view& parameter")
             return pad + ("pure m" if f.writes_possible() else "pure ()")
         return pad + "pure " + val
 
@@ -551,6 +686,16 @@ class FnTr:
             for d in s.get("inner", []):
                 if d.get("kind") != "VarDecl":
                     raise Untranslatable("declaration of " + str(d.get("kind")))
+                qt0 = d.get("type", {}).get("qualType", "")
+                if re.fullmatch(r"(const )?(unsigned )?(char|uint8_t)\[\d+\]", qt0):
+                    il = [c for c in d.get("inner", []) if c.get("kind") == "InitListExpr"]
+                    if not il:
+                        raise Untranslatable("local array without constant initialiser")
+                    vals = [self.const_int(e) % 256 for e in il[0].get("inner", [])]
+                    nlen = int(re.search(r"\[(\d+)\]", qt0).group(1))
+                    vals += [0] * (nlen - len(vals))
+                    self.const_arrays[d["id"]] = "([%s] : Bytes)" % ", ".join(str(v) for v in vals)
+                    continue
                 t = self.T.ctype(d.get("type"))
                 nm = self.vname(d["name"])
                 init = [c for c in d.get("inner", []) if c.get("kind") not in ("FullComment",)]
@@ -558,6 +703,8 @@ class FnTr:
                     raise Untranslatable("uninitialised local " + d["name"])
                 v = self.ex(init[0], B)
                 self.locals[d["id"]] = nm
+                if t[0] == "sv":
+                    self.sv_locals.add(d["id"])
                 B.append("let %s := %s" % (nm, v))
             return self.with_binds(B, k(ind), ind)
         if kind == "ForStmt":
@@ -577,7 +724,11 @@ class FnTr:
 
     def ret_code_v(self, v, ind):
         pad = "  " * ind
+        for o in self.fn.outs:
+            v = "(%s, %s)" % (v, o)
         if self.fn.writes:
+            if self.fn.outs:
+                raise Untranslatable("string_view& parameter in a writing function")
             return pad + "pure (m, %s)" % v
         return pad + "pure %s" % v
 
@@ -929,6 +1080,11 @@ class FnTr:
             ck = n.get("castKind")
             sub = n["inner"][0]
             if ck == "LValueToRValue":
+                s2 = sub
+                while s2.get("kind") == "ParenExpr":
+                    s2 = s2["inner"][0]
+                if s2.get("kind") == "MemberExpr" and s2.get("name") == "npos":
+                    return "18446744073709551615"
                 return self.load(self.lv(sub, B), B) if not self.is_const_ref(sub) else self.const_ref(sub, B)
             if ck == "NullToPointer":
                 return "0"
@@ -967,9 +1123,27 @@ class FnTr:
             t = self.fresh()
             B.append("let %s ← (if %s then (do %s) else (do %s))" % (t, cv, "; ".join(Ba + ["pure " + av]), "; ".join(Bb + ["pure " + bv])))
             return t
+        if k in ("CXXConstructExpr", "CXXTemporaryObjectExpr") and self.is_sv_node(n):
+            args = [a for a in n.get("inner", []) if a.get("kind") != "CXXDefaultArgExpr"]
+            if len(args) == 0:
+                return "((0, 0) : Nat × Nat)"
+            if len(args) == 1:
+                return self.ex(args[0], B)          # copy
+            if len(args) == 2:
+                return "(%s, %s)" % (self.ex(args[0], B), self.ex(args[1], B))
+            raise Untranslatable("string_view constructor")
+        if k == "MemberExpr" and n.get("name") == "npos":
+            return "18446744073709551615"
+        if k == "CXXMemberCallExpr":
+            sv = self.sv_method(n, B)
+            if sv is not None:
+                return sv
         if k == "CXXMemberCallExpr":
             intr = self.payload_intrinsic(n)
             if intr:
+                if self.fn.resizes:
+                    self.fn.uses_mem = True
+                    return "0" if intr == "pd_" else "m.length"
                 self.fn.uses_pd = True
                 return intr
         if k in ("CallExpr", "CXXMemberCallExpr"):
@@ -977,6 +1151,52 @@ class FnTr:
         if k == "CXXOperatorCallExpr":
             raise Untranslatable("overloaded operator")
         raise Untranslatable("expression " + str(k))
+
+    def is_sv_node(self, n):
+        t = n.get("type", {})
+        q = strip_cv(t.get("desugaredQualType") or t.get("qualType") or "")
+        return Translator.is_sv(q) or Translator.is_sv(strip_cv(t.get("qualType") or ""))
+
+    def sv_object(self, n):
+        """the Lean name of a string_view local / parameter named by expression n, or None"""
+        while n.get("kind") in ("ParenExpr", "ImplicitCastExpr"):
+            n = n["inner"][0]
+        if n.get("kind") == "DeclRefExpr" and n["referencedDecl"]["id"] in self.locals and self.is_sv_node(n):
+            return self.locals[n["referencedDecl"]["id"]]
+        return None
+
+    def sv_method(self, n, B):
+        """size / data / find / empty on a std::string_view object (a (pointer, length) pair)"""
+        me = n["inner"][0]
+        while me.get("kind") in ("ParenExpr", "ImplicitCastExpr"):
+            me = me["inner"][0]
+        if me.get("kind") != "MemberExpr":
+            return None
+        b0 = me["inner"][0]
+        while b0.get("kind") in ("ParenExpr", "ImplicitCastExpr"):
+            b0 = b0["inner"][0]
+        if b0.get("kind") == "DeclRefExpr" and b0["referencedDecl"]["id"] in self.ext:
+            if me.get("name") in ("size", "length") and len(n["inner"]) == 1:
+                return "%s.length" % self.ext[b0["referencedDecl"]["id"]]
+            raise Untranslatable("method of an external string_view other than size()")
+        obj = self.sv_object(me["inner"][0])
+        if obj is None:
+            return None
+        args = [a for a in n["inner"][1:] if a.get("kind") != "CXXDefaultArgExpr"]
+        nm = me.get("name")
+        if nm in ("size", "length") and not args:
+            return "%s.2" % obj
+        if nm == "data" and not args:
+            return "%s.1" % obj
+        if nm == "empty" and not args:
+            return "(%s.2 == 0)" % obj
+        if nm == "find" and len(args) == 1:
+            c = self.ex(args[0], B)
+            self.fn.uses_mem = True
+            t = self.fresh()
+            B.append("let %s ← svFind m %s (%s %% 256)" % (t, obj, c))
+            return t
+        raise Untranslatable("string_view method " + str(nm))
 
     def payload_intrinsic(self, n):
         """`payloadData.data()` / `payloadData.size()` on the enclosing payload object: the address and the size of the bytes the
@@ -1158,6 +1378,13 @@ class FnTr:
             return "(%s + %s * %d)" % (p, i, es) if es != 1 else "(%s + %s)" % (p, i)
         if t[0] != "i":
             raise Untranslatable("binary operator at type %s" % (t,))
+        if op == "-" and ta[0] == "p" and tb[0] == "p":
+            # pointer difference inside the one memory: defined here for a non-negative result only
+            es = self.T.sizeof_type(ta[1])
+            av, bv = self.ex(a, B), self.ex(b, B)
+            r = self.fresh()
+            B.append("let %s ← psub %s %s" % (r, av, bv))
+            return r if es == 1 else "(%s / %d)" % (r, es)
         av, bv = self.ex(a, B), self.ex(b, B)
         if op in ("<<", ">>"):
             if ta != t:
@@ -1187,6 +1414,20 @@ class FnTr:
             lv = self.lv(l, B)
             cur = self.load(lv, B)
             rt = self.ty(r)
+            if lt[0] == "p" and op in ("+", "-") and rt[0] == "i":
+                es = self.T.sizeof_type(lt[1])
+                if rt[2]:
+                    t = self.fresh()
+                    B.append("let %s ← nonneg %d %s" % (t, rt[1], rv))
+                    rv = t
+                step = rv if es == 1 else "(%s * %d)" % (rv, es)
+                if op == "+":
+                    self.store(lv, "(%s + %s)" % (cur, step), B, lt)
+                else:
+                    t = self.fresh()
+                    B.append("let %s ← psub %s %s" % (t, cur, step))
+                    self.store(lv, t, B, lt)
+                return
             if lt[0] != "i" or ct[0] != "i":
                 raise Untranslatable("compound assignment on non-integer")
             a = self.cast(cur, lt, ct)
@@ -1214,6 +1455,58 @@ class FnTr:
                 v = self.arith(op, lt, cur, "1", B)
             self.store(lv, v, B, lt)
             return
+        if k == "CallExpr":
+            callee = self.strip_casts(s["inner"][0])
+            if callee.get("referencedDecl", {}).get("name") == "memcpy" and len(s["inner"]) == 4:
+                dst = self.ex(s["inner"][1], B)
+                src = self.ext_bytes(s["inner"][2], B)
+                if src is None:
+                    raise Untranslatable("memcpy source is not an external buffer, &local or a constant array")
+                cnt = self.ex(s["inner"][3], B)
+                self.fn.uses_mem = True
+                self.fn.writes = True
+                B.append("let m ← wrBytes m %s %s %s" % (dst, src, cnt))
+                return
+        if k == "CXXMemberCallExpr":
+            me = s["inner"][0]
+            while me.get("kind") in ("ParenExpr", "ImplicitCastExpr"):
+                me = me["inner"][0]
+            if me.get("kind") == "MemberExpr" and me.get("name") == "resize" and len(s["inner"]) == 2:
+                b = me["inner"][0]
+                while b.get("kind") in ("ParenExpr", "ImplicitCastExpr"):
+                    b = b["inner"][0]
+                t = b["inner"][0] if b.get("inner") else {}
+                while t.get("kind") in ("ParenExpr", "ImplicitCastExpr"):
+                    t = t["inner"][0]
+                if b.get("kind") == "MemberExpr" and b.get("name") == "payloadData" and t.get("kind") == "CXXThisExpr":
+                    nsz = self.ex(s["inner"][1], B)
+                    self.fn.uses_mem = True
+                    self.fn.writes = True
+                    self.fn.resizes = True
+                    B.append("let m := resize m %s" % nsz)
+                    return
+        if k == "CXXOperatorCallExpr":
+            inner = s["inner"]
+            callee = self.strip_casts(inner[0])
+            if callee.get("referencedDecl", {}).get("name") == "operator=" and len(inner) == 3:
+                obj = self.sv_object(inner[1])
+                if obj is not None:
+                    v = self.ex(inner[2], B)
+                    B.append("let %s := %s" % (obj, v))
+                    return
+            raise Untranslatable("overloaded operator")
+        if k == "CXXMemberCallExpr":
+            me = s["inner"][0]
+            while me.get("kind") in ("ParenExpr", "ImplicitCastExpr"):
+                me = me["inner"][0]
+            if me.get("kind") == "MemberExpr" and me.get("name") == "remove_suffix":
+                obj = self.sv_object(me["inner"][0])
+                if obj is not None:
+                    kx = self.ex(s["inner"][1], B)
+                    t = self.fresh()
+                    B.append("let %s ← svRemoveSuffix %s %s" % (t, obj, kx))
+                    B.append("let %s := %s" % (obj, t))
+                    return
         if k in ("CallExpr", "CXXMemberCallExpr"):
             self.call(s, B, want_value=False)
             return
@@ -1250,15 +1543,44 @@ class FnTr:
         d = self.T.definition(did)
         f = self.T.translate_fn(d)
         argv = []
-        for a in args:
+        out_objs = []
+        for (pn, pt), a in zip([p for p in f.params if p[0] != "this_"], args):
             if a.get("kind") == "CXXDefaultArgExpr":
                 raise Untranslatable("default argument")
-            argv.append(self.ex(a, B))
+            if pt[0] == "ext":
+                e = self.ext_bytes(a, B)
+                if e is None:
+                    a2 = a
+                    while a2.get("kind") in ("ImplicitCastExpr", "ParenExpr", "CXXConstructExpr", "MaterializeTemporaryExpr", "CXXBindTemporaryExpr") and a2.get("inner"):
+                        a2 = a2["inner"][0]
+                    if a2.get("kind") == "DeclRefExpr" and a2["referencedDecl"]["id"] in self.ext:
+                        e = self.ext[a2["referencedDecl"]["id"]]
+                if e is None:
+                    raise Untranslatable("argument for an external buffer parameter")
+                argv.append(e)
+                continue
+            if pt[0] == "svref":
+                obj = self.sv_object(a)
+                if obj is None:
+                    raise Untranslatable("string_view& argument is not a local")
+                out_objs.append(obj)
+                argv.append(obj)
+            else:
+                argv.append(self.ex(a, B))
+        if len(args) != len([p for p in f.params if p[0] != "this_"]):
+            raise Untranslatable("argument count")
         pl = []
         if f.uses_mem:
             self.fn.uses_mem = True
             pl.append("m")
-        if f.uses_pd:
+        if f.resizes:
+            if n["kind"] != "CXXMemberCallExpr" or self.strip_casts(me["inner"][0]).get("kind") != "CXXThisExpr":
+                raise Untranslatable("resizing callee on another object")
+            self.fn.resizes = True
+        if f.uses_pd and self.fn.resizes:
+            # the object's bytes are the memory itself
+            pl += ["0", "m.length"]
+        elif f.uses_pd:
             # only on the same object
             if n["kind"] != "CXXMemberCallExpr" or self.strip_casts(me["inner"][0]).get("kind") != "CXXThisExpr":
                 raise Untranslatable("payload-owning callee on another object")
@@ -1285,6 +1607,12 @@ class FnTr:
         if f.ret[0] == "v":
             B.append("let _ ← %s" % callc)
             return None
+        if out_objs:
+            pat = r
+            for o in out_objs:
+                pat = "(%s, %s)" % (pat, o)
+            B.append("let %s ← %s" % (pat, callc))
+            return r
         B.append("let %s ← %s" % (r, callc))
         return r
 
